@@ -874,6 +874,23 @@ func TestClient(t *testing.T) {
 			err = c.PeerRm(ctx, pid)
 			nontrivial = true
 		case "Pin":
+			if rapid.IntRange(0, 5).Draw(t, "serverRefuses") == 0 {
+				// a request the client can send but the server must refuse
+				// with 400 (an origin without a peer ID): the caller has to be
+				// told, and nothing may be executed
+				bad, _ := ma.NewMultiaddr(rapid.SampledFrom([]string{"/ip4/1.2.3.4/tcp/4001", "/dns4/example.org/tcp/4001"}).Draw(t, "badorigin"))
+				o := api.PinOptions{Name: "refused", Origins: []ma.Multiaddr{bad}}
+				respond("Cluster.Pin", api.PinCid(ci))
+				_, err = c.Pin(ctx, ci, o)
+				if calls := s.rec.Take(); len(calls) != 0 {
+					t.Fatalf("a pin request the server must refuse (origin %s without peer ID) was executed: %v", bad, callNames(calls))
+				}
+				if err == nil {
+					t.Fatalf("the server refuses a pin with origin %s (400) but the client reported success", bad)
+				}
+				leg.Case(fmt.Sprintf("Pin(%s) with origin %s: refused by the server", ci, bad), true, "method:Pin", "server-refused")
+				return
+			}
 			o := gen.Options(optCfg).Draw(t, "opts")
 			v := gen.Pin(gen.Full).Draw(t, "answer")
 			want = v
